@@ -9,9 +9,10 @@ namespace TM.Vesting
 
 abbrev Denom := String
 
-/-- cosmos-sdk denom regexp `[a-zA-Z][a-zA-Z0-9/:._-]{2,127}`. -/
+/-- cosmos-sdk v0.45.2 denom regexp: a letter, then 2..127 characters that are letters, digits, slash or dash
+(the colon, dot and underscore of later SDK versions are NOT accepted). -/
 def denomHead (c : Char) : Bool := c.isAlpha
-def denomTail (c : Char) : Bool := c.isAlphanum || c == '/' || c == ':' || c == '.' || c == '_' || c == '-'
+def denomTail (c : Char) : Bool := c.isAlphanum || c == '/' || c == '-'
 def validDenom (d : Denom) : Bool :=
   match d.toList with
   | [] => false
